@@ -109,6 +109,44 @@ func configs() []*config {
 			depth:    map[string]int{"quick": 4, "thorough": 7}, shards: 2,
 		},
 		{
+			// Mixed priorities inside ONE leaf invocation under depth-2
+			// nesting, three workers: [A,L] holds a priority 0 and a
+			// priority 100 operation, [B,M] two of priority 50. Once the
+			// priority 0 operation has been handed out (and is still
+			// executing), every ancestor of [A,L] must advertise priority
+			// 100: A scores (1+1)*2 = 4 against B's 1*2^.5 and then B's
+			// (1+1)*2^.5 = 2.83, so the documented order is a0 b1 b2. Also
+			// [A,N] (priority 0, a second leaf below A) and further
+			// arrivals.
+			name: "c04-nested-mixed", props: []string{"C04"},
+			predeclared: onePQ(),
+			workers:     []workerDecl{w(1, "", "P1", 0), w(2, "", "P1", 0), w(3, "", "P1", 0)},
+			execs: []execDecl{
+				{name: "AL.p0", platform: "P1", corr: "A", tool: "L", prio: 0, dur: 1},
+				{name: "AL.p100", platform: "P1", corr: "A", tool: "L", prio: 100, dur: 1},
+				{name: "BM.p50", platform: "P1", corr: "B", tool: "M", prio: 50, dur: 1},
+				{name: "AN.p0", platform: "P1", corr: "A", tool: "N", prio: 0, dur: 1},
+			},
+			prefix: []string{"AL.p0", "AL.p100", "BM.p50", "BM.p50"},
+			depth:  map[string]int{"quick": 4, "thorough": 6}, shards: 4,
+		},
+		{
+			// The same from a state in which the best operation of the leaf
+			// is already executing on W:1 (handed over directly) and the
+			// leaf holds operations of three different priorities.
+			name: "c04-nested-mixed2", props: []string{"C04"},
+			predeclared: onePQ(),
+			workers:     []workerDecl{w(1, "", "P1", 0), w(2, "", "P1", 0), w(3, "", "P1", 0)},
+			execs: []execDecl{
+				{name: "AL.p0", platform: "P1", corr: "A", tool: "L", prio: 0, dur: 1},
+				{name: "AL.p50", platform: "P1", corr: "A", tool: "L", prio: 50, dur: 1},
+				{name: "AL.p150", platform: "P1", corr: "A", tool: "L", prio: 150, dur: 1},
+				{name: "BM.p50", platform: "P1", corr: "B", tool: "M", prio: 50, dur: 1},
+			},
+			prefix: []string{"W:1", "AL.p0", "AL.p50", "AL.p150", "BM.p50", "BM.p50"},
+			depth:  map[string]int{"quick": 4, "thorough": 6}, shards: 4,
+		},
+		{
 			// Reversed limits: short level-0 window, long level-1 window.
 			name: "c04-sticky-rev", props: []string{"C04"},
 			predeclared: onePQ(1, 3),
